@@ -1019,29 +1019,31 @@ func engineReflectDiff(rep *Report) {
 				continue
 			}
 			seed := caseSeed(*flagSeed, tn, i, "reflectdiff")
-			c := newRDCase(rep, s, seed, "random", i)
-			steps := 30 + c.r.Intn(31)
-			// some histories start from a populated message (decoded into all three worlds the same way)
-			if i%3 == 1 {
-				v := c.g.Msg(c.d, 0)
-				b := SpecEncode(quietF32(v))
-				for wi, w := range c.worlds {
-					var err error
-					if wi == 2 {
-						err = proto.Unmarshal(b, w.root)
-					} else {
-						// through the struct builder, not through the subject's decoder
-						Fill(slowView, w.root, quietF32(v))
-					}
-					_ = err
-				}
-				c.hist = append(c.hist, fmt.Sprintf("<start from value %x>", b))
-			}
+			var c *rdCase
 			guardCase(rep, "C08", "reflectdiff", tn, i, func() {
+				c = newRDCase(rep, s, seed, "random", i)
+				steps := 30 + c.r.Intn(31)
+				// some histories start from a populated message (built the same way in all three worlds)
+				if i%3 == 1 {
+					v := c.g.Msg(c.d, 0)
+					b := SpecEncode(quietF32(v))
+					for wi, w := range c.worlds {
+						if wi == 2 {
+							_ = proto.Unmarshal(b, w.root)
+						} else {
+							// through the table-driven reflection, not through the subject's decoder
+							Fill(slowView, w.root, quietF32(v))
+						}
+					}
+					c.hist = append(c.hist, fmt.Sprintf("<start from value %x>", b))
+				}
 				for k := 0; k < steps && !c.dead; k++ {
 					c.randomStep()
 				}
 			})
+			if c == nil {
+				continue
+			}
 			rep.Eval("C08", []byte(tn+"|"+strings.Join(c.hist, ";")), len(c.hist) > 0)
 			if i == 0 && ti < 2 {
 				h := c.hist
